@@ -210,6 +210,12 @@ def c08d(ctx, tu):
         ok = len(rets) == 1 and isinstance(rets[0], list) and rets[0][:2] == ["b", "&&"] and \
             lib.tree_name(rets[0][2]) == "trompeloeil::match_parameters" and \
             lib.tree_name(rets[0][3]) == A["match_conditions"]
+        if ok:
+            # (expected values of THIS expectation, actual parameters of the call) / (actual parameters)
+            mp, mc = rets[0][2], rets[0][3]
+            a = mp[3]
+            ok = len(a) == 2 and a[0][:1] == ["member"] and erase(a[0][1]) == "trompeloeil::call_matcher::val" and \
+                a[0][2] == ["this"] and a[1][:2] == ["param", 0] and mc[4] and mc[4][0][:2] == ["param", 0] and mc[3] == ["this"]
         ctx.ob("C01.d", A["matches"], ok, pattern=fn.pat, unit=tu.name, inst=fn.q,
                detail="" if ok else "matches() must be: all parameters match AND all WITH conditions hold")
     return n
